@@ -155,6 +155,15 @@ Lemma ext_if_pairs sh : forall l first, ext (if_pairs ts w node sh first l).
 Proof. induction l as [|x r IH]; intros first; cbn [if_pairs]; lp IH. Qed.
 End Loops.
 
+Lemma ext_dropped_else node pairs : ext (dropped_else ts node pairs).
+Proof.
+  unfold dropped_else.
+  repeat first
+    [ ext_step | apply ext_get_text | apply ext_semis
+    | match goal with |- ext (match ?x with _ => _ end) => destruct x end
+    | match goal with |- ext (if ?x then _ else _) => destruct x end ].
+Qed.
+
 Lemma ext_walk n : forall node, ext (walk ts n node).
 Proof.
   induction n as [|n IH]; intros node; cbn [walk]; [apply ext_fail|].
@@ -164,6 +173,7 @@ Proof.
   repeat first
     [ ext_step | apply ext_get_text | apply ext_get_name | apply ext_semis | apply IH
     | apply ext_stats | apply ext_sep_rest | apply ext_name_rest | apply ext_field_rest | apply ext_if_pairs
+    | apply ext_dropped_else
     | apply ext_with_code; intros ? | apply ext_name_tok; intros ? ].
 Qed.
 
